@@ -219,7 +219,9 @@ def run_history(res, case):
                 raise
             res.fail(f"C18:{specs[which]['cls']}.{method}:raises:{type(e).__name__}", str(e))
             return
-        new = log[start:]
+        # attribute evaluations to the system object the call went through (a copied system calls the original's
+        # wrapped functions, whose probes carry the original's tag)
+        new = [(which, e[1], e[2]) for e in log[start:]]
         if K[idx]:
             interesting = True
         again = [e for e in new if e in K[idx]]
@@ -266,6 +268,23 @@ def run_history(res, case):
                 on_manifold[i] = False
             elif var == "mom" and clsA in zoo.CONSTRAINED:
                 on_manifold[i] = False
+        elif kind == "copy_system":
+            import copy as _copy
+
+            if specs["A"]["cls"] == specs["B"]["cls"] and False:
+                pass
+            how = {"copy": _copy.copy, "deepcopy": _copy.deepcopy, "pickle": hist.pickle_roundtrip}[op["how"]]
+            try:
+                systems["B"] = how(systems["A"])
+            except Exception as e:  # noqa: BLE001
+                if through_code_under_test(e.__traceback__) is None:
+                    raise
+                continue
+            specs["B"], models["B"] = specs["A"], models["A"]
+            # a new system object: nothing is covered for it yet, on any state
+            for j in range(len(K)):
+                K[j] = {e for e in K[j] if e[0] != "B"}
+            res.classes.append("op:copy_system:" + op["how"])
         elif kind == "adapt_metric":
             # a metric adapter's finalize on this (used) state: the metric is replaced and the momentum re-drawn; what the
             # user functions returned at this position stays valid
